@@ -213,3 +213,7 @@ where
 	}
 	Ok(())
 }
+
+#[cfg(feature = "breard_r_acmed_verif")]
+#[path = "/verif/probe/hooks_probe.rs"]
+mod verif;
